@@ -3,7 +3,7 @@
 From DV Require Import Base.Prelude Model.BTreeM Proofs.BTreeBase Proofs.BTreeWf Proofs.BTreeInsert
   Proofs.BTreeLookup Proofs.BTreeDelete Proofs.BTreeTop
   Model.BTreeStoreM Proofs.BTreeStore Proofs.BTreeIsolation Proofs.BTreeCursor Proofs.BTreeHistory
-  Proofs.BTreeRefine Proofs.BTreeRefine5 Proofs.BTreeRefine6 Proofs.BTreeRefine7.
+  Proofs.BTreeRefine Proofs.BTreeRefine5 Proofs.BTreeRefine6 Proofs.BTreeRefine7 Proofs.BTreeRefine8.
 
 (* _Node.search_in_node (shortcut + binary search) on a key-sorted node = linear search *)
 Theorem search_spec : forall k es, ksorted es -> search k es = Ok (lsearch k es).
@@ -240,6 +240,16 @@ Theorem store_run_reference : forall xs,
   BTreeStoreM.run (L (I 0 :: map enc xs)) = L (rsteps (mkRW [] []) xs).
 Proof. exact store_run_reference_proof. Qed.
 Print Assumptions store_run_reference.
+
+(* The self-check built into the model the harness runs always passes: on every history of
+   operations AND dump requests (`HDump`: the step at which the correspondence compares the real
+   node structure, serial numbers and creator tags), `BTreeStoreM.run` returns the value-level
+   observations (never eStoreDiffers), and every dump carries the store's preorder walk and the
+   flag "every tree of the store abstracts to its value-level tree" = true (`expected`). *)
+Theorem run_self_check : forall hs,
+  BTreeStoreM.run (L (I 0 :: map henc hs)) = L (expected (mkSW [] []) (mkW [] []) hs).
+Proof. exact run_self_check_proof. Qed.
+Print Assumptions run_self_check.
 
 (* `_visit_preorder_by_node` on the store (`sdump`: the walk whose output the harness compares
    with the real node structure, serial numbers and creator tags): in every reachable world and for
